@@ -38,7 +38,14 @@ RULE = (
     "at a pruning decision; every batch element is compared with its solo search. "
     "ctc_prefix_search_advance is driven directly for 3 (quick) / 5 (thorough) consecutive steps on width schedules that "
     "exceed the legitimate candidates at the first, at a later, or at every step, with plain and "
-    "prefix-dependent extension scores. Distinct by construction; non-trivial = at least one element "
+    "prefix-dependent extension scores. Object reuse: 13 histories on ONE CTCPrefixSearch object (with "
+    "the table LM), with and without a call before the first reassignment, x every pool rotation, "
+    "T=3 (thorough: also 4): construct, call, reassign public attributes (beta among {0,.3,1}, "
+    "valid_mixture, width among {1,2,3,P+5,50}, lm <-> None, singly and combined, there and back) or "
+    "only change the input (N=2 with mixed lens / N=1 / N=2 swapped with lens=None / N=1 shorter "
+    "with the initial state omitted), call again; every call must equal bit-for-bit the result of a "
+    "FRESH object carrying the current settings and every element must equal its solo search under "
+    "those settings (held to both oracles). Distinct by construction; non-trivial = at least one element "
     "has a valid frame. states = distinct (V, frame, beam contents) reached; transitions = frames "
     "advanced by the implementation; traces = solo searches / advance runs matched prefix-by-prefix "
     "against Oracle B."
@@ -55,6 +62,9 @@ ASSUMPTIONS = [
     "Oracle B keeps only positive-mass candidates (zero-mass prefixes are inert in the recursion)",
     "the table LM used for fusion is trusted harness code; softmax of the reference is math.exp based",
     "TorchScript-compiled and CUDA variants are not explored",
+    "object reuse covers the public attributes width, beta, valid_mixture, lm (CTCPrefixSearch has no other "
+    "public setting); the blank index is fixed by the API; reassigned values are legal constructor values; "
+    "equality with a fresh object is exact (same arithmetic on the same inputs, single thread)",
 ]
 BUDGET_S = {"quick": 200, "thorough": 2400}
 
@@ -390,7 +400,14 @@ def run_batch(ctx, env, T, names, lens, width, tier, lens_none=False, poison=Fal
         ctx.violation(dict(sig0, symptom="wrong-shape"), case,
                       {"y": list(y.shape), "y_lens": list(yl.shape), "probs": list(pr.shape), "dtype": str(pr.dtype)})
         return
-    for n in range(N):
+    check_elements(ctx, env, sig0, case, y, yl, pr, names, lens, width, tier, lens_none)
+
+
+def check_elements(ctx, env, sig0, case, y, yl, pr, names, lens, width, tier, lens_none=False):
+    """structural invariants of every element of a batched result + equality with its solo search
+    (which is itself held to both oracles)"""
+    V = env.V
+    for n in range(len(names)):
         ref = solo(ctx, env, names[n], lens[n], width, tier)
         view = make_view(y, yl, pr, n)
         ecase = dict(case, element=n)
@@ -638,11 +655,172 @@ def run_advance_shard(ctx, spec, tier, seed):
 
 
 # ----------------------------------------------------------------------------------------------
+# histories on ONE CTCPrefixSearch object: call, reassign public attributes / change the inputs, call again
+def reuse_menu(big):
+    """[(settings the object is constructed with, [attributes reassigned before each later call])]"""
+
+    def S(w, b, vm, lm=True):
+        return {"width": w, "beta": b, "valid_mixture": vm, "lm": lm}
+
+    return [
+        (S(3, 0.3, False), [{"beta": 1.0}, {"beta": 0.3}]),
+        (S(3, 0.0, False), [{"beta": 0.3}, {"beta": 0.0}]),
+        (S(big, 1.0, False), [{"beta": 0.0}, {"beta": 1.0}]),
+        (S(3, 0.3, False), [{"valid_mixture": True}, {"valid_mixture": False}]),
+        (S(big, 1.0, True), [{"valid_mixture": False}, {"valid_mixture": True}]),
+        (S(2, 0.3, False), [{"beta": 1.0, "valid_mixture": True}, {"beta": 0.3, "valid_mixture": False}]),
+        (S(2, 0.3, False), [{"width": 50}, {"width": 1}, {"width": 2}]),
+        (S(50, 0.3, True), [{"width": 1}, {"width": big}]),
+        (S(3, 1.0, False), [{"width": big, "beta": 0.3}, {"width": 1, "valid_mixture": True}]),
+        (S(3, 0.3, False), [{"lm": False}, {"lm": True}]),
+        (S(3, 0.0, True, False), [{"lm": True}, {"beta": 1.0}]),
+        (S(3, 0.3, True), [{}, {}, {}]),  # same settings, only batch / lens / initial state change
+        (S(big, 1.0, False), [{}, {}, {}]),
+    ]
+
+
+def reuse_inputs(names, r, T):
+    """the inputs the calls of one history cycle through: different batch sizes, matrices, lens given or
+    None, initial state given (per-element) or omitted (seed0 has the default state index 0)"""
+    P = len(names)
+
+    def nm(j):
+        return names[(r + j) % P]
+
+    return [
+        {"mats": [nm(0), nm(1)], "lens": [T, min(1, T)], "lens_none": False, "state": True},
+        {"mats": [nm(2)], "lens": [T], "lens_none": False, "state": True},
+        {"mats": [nm(1), nm(0)], "lens": [T, T], "lens_none": True, "state": True},
+        {"mats": [names[0]], "lens": [max(T - 1, 0)], "lens_none": False, "state": False},
+    ]
+
+
+def _same_result(a, b):
+    (ya, la, pa), (yb, lb, pb) = a, b
+    if ya.shape != yb.shape or la.shape != lb.shape or pa.shape != pb.shape:
+        return "shape"
+    if not torch.equal(pa.isnan(), pb.isnan()) or not torch.equal(pa.nan_to_num(nan=-7.0), pb.nan_to_num(nan=-7.0)):
+        return "masses"
+    pos = pa > 0
+    if not torch.equal(la[pos], lb[pos]):
+        return "lengths"
+    if ya.size(0):
+        mask = (torch.arange(ya.size(0)).view(-1, 1, 1) < la.unsqueeze(0)) & pos.unsqueeze(0)
+        if not torch.equal(ya[mask], yb[mask]):
+            return "prefixes"
+    return None
+
+
+class ReuseEnvs:
+    """reference environments (one per fusion setting) sharing V, dtype, seed and the LM tables"""
+
+    def __init__(self, V, dtype, seed, names):
+        self.V, self.dtype, self.seed, self.names = V, dtype, seed, names
+        self.envs = {}
+        self.lm = self.get({"lm": True, "beta": 0.3, "valid_mixture": False}).lm
+
+    def get(self, st):
+        if not st["lm"] or not st["beta"]:
+            cfg = ("none", 0.0)
+        else:
+            cfg = ("mixture" if st["valid_mixture"] else "plain", float(st["beta"]))
+        if cfg not in self.envs:
+            self.envs[cfg] = Env(self.V, cfg, self.dtype, self.seed, self.names)
+        return self.envs[cfg]
+
+    def build(self, st):
+        return CTCPrefixSearch(st["width"], st["beta"], self.lm if st["lm"] else None,
+                               valid_mixture=st["valid_mixture"])
+
+
+def run_reuse(ctx, R, tier, T, r, start, assigns, call_first, shift=0):
+    """One history on one object. After every call the result must equal what a FRESH object carrying
+    the object's current public settings returns for the same input, and every element must agree
+    with its solo search under those settings (which is held to both oracles)."""
+    V = R.V
+    inputs = reuse_inputs(R.names, r, T)
+    case0 = {"kind": "reuse", "V": V, "dtype": R.dtype, "seed": R.seed, "tier": tier, "T": T, "r": r,
+             "start": dict(start), "assigns": [dict(a) for a in assigns], "call_first": call_first, "shift": shift}
+    ctx.count("reuse_histories")
+    cur = dict(start)
+    try:
+        obj = R.build(cur)
+    except Exception as e:
+        ctx.violation({"api": "CTCPrefixSearch", "symptom": "raises", "type": type(e).__name__, "where": "constructor"},
+                      case0, {"error": str(e)[-400:]})
+        return
+    seq = ([{}] if call_first else []) + list(assigns)
+    for j, assign in enumerate(seq):
+        for k, v in assign.items():
+            if k == "lm":
+                obj.lm = R.lm if v else None
+            else:
+                setattr(obj, k, v)
+        cur.update(assign)
+        inp = inputs[(j + shift) % len(inputs)]
+        env = R.get(cur)
+        changed = "+".join(sorted(assign)) if assign else ("first-call" if j == 0 else "inputs-only")
+        case = dict(case0, step=j, settings=dict(cur), input=inp)
+        sig0 = {"api": "CTCPrefixSearch", "fusion": env.cfg[0] if env.cfg[1] else "none", "batched": True,
+                "reused_object": True, "changed": changed}
+        N = len(inp["mats"])
+        ctx.case(1, 1 if any(inp["lens"]) else 0)
+        ctx.transitions += sum(inp["lens"])
+        logits = torch.stack([env.mat_t[n][:T] for n in inp["mats"]], 1)
+        lens_t = None if inp["lens_none"] else torch.tensor(inp["lens"])
+
+        def call(search):
+            args = [logits.clone(), None if lens_t is None else lens_t.clone()]
+            if inp["state"] and search.lm is not None:
+                args.append({"off": torch.tensor([env.off[n] for n in inp["mats"]], dtype=torch.long)})
+            with torch.no_grad():
+                return search(*args)
+
+        try:
+            got = call(obj)
+            fresh = call(R.build(cur))
+        except Exception as e:
+            ctx.violation(dict(sig0, symptom="raises", type=type(e).__name__), case, {"error": str(e)[-400:]})
+            return
+        diff = _same_result(got, fresh)
+        if diff:
+            ctx.violation(dict(sig0, symptom="reused-object-differs-from-fresh", what=diff), case,
+                          {"reused_probs": got[2].tolist(), "fresh_probs": fresh[2].tolist(),
+                           "expected": "the result of a freshly constructed object with the current settings"})
+        else:
+            ctx.count("reuse_calls_equal_to_fresh_object")
+        y, yl, pr = got
+        W = cur["width"]
+        if not (y.dim() == 3 and tuple(y.shape[1:]) == (N, W) and y.size(0) <= T and tuple(yl.shape) == (N, W)
+                and tuple(pr.shape) == (N, W) and pr.dtype == env.dtype):
+            ctx.violation(dict(sig0, symptom="wrong-shape"), case,
+                          {"y": list(y.shape), "y_lens": list(yl.shape), "probs": list(pr.shape)})
+            return
+        check_elements(ctx, env, sig0, case, y, yl, pr, inp["mats"], inp["lens"], W, tier, inp["lens_none"])
+
+
+def run_reuse_shard(ctx, spec, tier, seed):
+    V, dtype = spec["V"], spec["dtype"]
+    names = pool_names(tier)
+    R = ReuseEnvs(V, dtype, seed, names)
+    P = len(names)
+    for T in ((3, 4) if tier == "thorough" else (3,)):
+        big = len(O.reachable_prefixes(T, V)) + 5
+        for r in range(P):
+            for hi, (start, assigns) in enumerate(reuse_menu(big)):
+                for call_first in (True, False):
+                    if not call_first and not any(assigns):
+                        continue
+                    run_reuse(ctx, R, tier, T, r, start, assigns, call_first, shift=hi)
+
+
+# ----------------------------------------------------------------------------------------------
 def shards(tier, seed):
     out = []
     for V in (1, 2):
         for dt in DTYPES:
             out.append({"kind": "advance", "V": V, "dtype": dt})
+            out.append({"kind": "reuse", "V": V, "dtype": dt})
     parts = 4 if tier == "thorough" else 1
     for V in (1, 2):
         for cfg in CFGS:
@@ -661,6 +839,8 @@ def run_shard(spec, tier, seed):
     ctx = Ctx()
     if spec["kind"] == "search":
         run_search_shard(ctx, spec, tier, seed)
+    elif spec["kind"] == "reuse":
+        run_reuse_shard(ctx, spec, tier, seed)
     else:
         run_advance_shard(ctx, spec, tier, seed)
     return ctx
@@ -675,6 +855,11 @@ def replay(case):
                   case.get("poison", False))
     elif case["kind"] == "advance":
         run_advance(ctx, case["V"], case["dtype"], case["seed"], case["mats"], case["schedule"], case["extmode"])
+    elif case["kind"] == "reuse":
+        tier = case.get("tier", "quick")
+        R = ReuseEnvs(case["V"], case["dtype"], case["seed"], pool_names(tier))
+        run_reuse(ctx, R, tier, case["T"], case["r"], case["start"], case["assigns"], case["call_first"],
+                  case.get("shift", 0))
     else:  # a whole shard blew up
         return run_shard(case["spec"], "quick", 0)
     return ctx
